@@ -4,7 +4,9 @@ cd /verif
 for d in seeded/C*/; do
   id=$(basename $d)
   prop=$(python3 -c "import json;m=json.load(open('$d/meta.json'));print(m.get('check', m['property']))")
-  case $id in C01-4|C07-4) prop=C18;; esac
-  out=$(timeout 1200 tools/mutant.sh /verif/$d/patch.diff $prop 2>&1 | grep -E "exit=" | head -1 | cut -c1-200)
+  tier=$(python3 -c "import json;m=json.load(open('$d/meta.json'));print(m.get('tier','quick'))")
+  expect=$(python3 -c "import json;m=json.load(open('$d/meta.json'));print(m.get('expect','caught'))")
+  out=$(timeout 3000 tools/mutant.sh /verif/$d/patch.diff --tier $tier $prop 2>&1 | grep -E "exit=|APPLY" | head -1 | cut -c1-200)
+  if [ "$expect" = not_caught ]; then echo "NEUTRAL $id (no longer a defect, see meta.json) :: $out"; continue; fi
   case "$out" in *"exit=1"*) echo "CAUGHT $id by $prop :: $out";; *) echo "MISSED $id by $prop :: $out";; esac
 done
